@@ -95,6 +95,8 @@ def gen_flatten2(out, name, item, outer, inner, inner_field, ctor_args):
     for lvl, f in ctor_args:
         if lvl == 'o':
             args.append('%s_e_%s(data, e)' % (outer.name, f))
+        elif lvl == 'x':
+            args.append(f.format(p='%s_pos(data, a2, j - 1)' % inner.name, inner=inner.name))
         else:
             args.append('%s_e_%s(data, %s_pos(data, a2, j - 1))' % (inner.name, f, inner.name))
     out.append('''@rec
@@ -173,6 +175,12 @@ def generate():
     # OffsetFetchResponse v1: correlation_id:i32 [topic:str [partition:i32 offset:i64 metadata:str error:i16]]
     two_level('ofr', 'OffsetFetchResponse', [('partition', 'i32'), ('offset', 'i64'), ('metadata', 'bytes16'), ('error', 'i16')],
               [('o', 'topic'), ('i', 'partition'), ('i', 'offset'), ('i', 'metadata'), ('i', 'error')], 4)
+    # FetchResponse v0: correlation_id:i32 [topic:str [partition:i32 error:i16 high_watermark:i64 record_set:bytes]]
+    # FetchResponse v1+: correlation_id:i32 throttle_ms:i32 then as v0          (array at 4 resp. 8)
+    two_level('fr', 'FetchResponse', [('partition', 'i32'), ('error', 'i16'), ('highwaterMark', 'i64'), ('record_set', 'bytes')],
+              [('o', 'topic'), ('i', 'partition'), ('i', 'error'), ('i', 'highwaterMark'),
+               ('x', "mkgen('afkak.kafkacodec.KafkaCodec._decode_message_set_iter', {inner}_e_record_set(data, {p}))")], 4)
+    RESP_SCHEMAS['fr2'] = [('correlation_id', 'i32'), ('throttle', 'i32')] + RESP_SCHEMAS['fr'][1:]
     # ---- flat and one-level responses ---------------------------------------------------------------
     # FindCoordinator v0 response: correlation_id:i32 error:i16 node_id:i32 host:str port:i32
     fc = [('correlation_id', 'i32'), ('error', 'i16'), ('node_id', 'i32'), ('host', 'str_ascii'), ('port', 'i32')]
